@@ -101,7 +101,7 @@ def run(ev, prop, tier, cfgs, max_deviating=400, build='dbg', limit=None):
     rd = vlib.run_dir('%s-satimpl' % prop)
     total, exact, deviating, first_dev = 0, 0, [], None
     for cfg in cfgs:
-        path, stats = generate(cfg, rd, 900 if tier == 'quick' else 3400, 1500 if tier == 'quick' else 30000)
+        path, stats = generate(cfg, rd, 900 if tier == 'quick' else 3400, 1500 if tier == 'quick' else 8000)
         stats['what'] = ('test generation: random walks of up to 18 calls over SatCoreImpl (%s)' if 'sim' in cfg else 'test generation: one test per transition of SatCoreImpl (%s)') % cfg
         stats['wall_s'] = 0
         ev.cov['models'].append(stats)
